@@ -354,6 +354,29 @@ def compare_view(sim, who, lib_client, model, scopes, stack, devname, truth, vio
                                 return
 
 
+def check_initial_state(stack, viol, facts):
+    """Before any operation the driver holds what its definition declares (defaults, default_on, states, enable flags)."""
+    for dname in stack.drivers:
+        t = stack.truth(dname)
+        if t["missing_groups"]:
+            continue  # reported by the view comparison
+        for vname, tv in t["vectors"].items():
+            vs = tv["spec"]
+            if tv["state"] != vs["state"]:
+                viol.append({"clause": "C01.state", "detail": f"device {dname}: {vname} starts in state {tv['state']!r}, its definition says {vs['state']!r}", "facts": facts})
+                return
+            for en, te in tv["elements"].items():
+                want = G.default_value(vs["kind"], te["spec"], vs)
+                got = te["value"]
+                if vs["kind"] == "Text":
+                    got, want = got or "", want or ""
+                if got != want:
+                    viol.append({"clause": "C01.value", "detail": f"device {dname}: {vname}.{en} starts with {got!r}, its definition says {want!r}"
+                                 + (f" (default_on={vs['default_on']!r}, sibling names {sorted(tv['elements'])})" if vs["kind"] == "Switch" else ""),
+                                 "facts": dict(facts, kind=vs["kind"], initial=True)})
+                    return
+
+
 def check_all(sim, stack, viol, facts):
     names = set(stack.drivers)
     truths = {d: stack.truth(d) for d in stack.drivers}
@@ -400,6 +423,7 @@ def execute(scen):
                     pass
 
         stack.hooks.append(size_hook)
+        check_initial_state(stack, viol, facts)
         depth = max(len(s["levels"]) for s in scen["devices"])
         if depth == 3:
             probes["inheritance_depth_3"] = 1
